@@ -72,6 +72,8 @@ pub struct Profile {
     /// bulk histories: always a wide, densely kept index space; creation bursts and very large
     /// deletion batches (several 64-handle blocks)
     pub bulk: bool,
+    /// bulk with thousands of live entities and batches of more than a thousand handles
+    pub huge: bool,
 }
 
 #[derive(Clone, Copy, Debug, PartialEq, Eq)]
@@ -149,6 +151,7 @@ pub fn profile(name: &str) -> Profile {
         allow_clear: true,
         par_pct: 2,
         bulk: false,
+        huge: false,
     };
     match name {
         "lifecycle" => base,
@@ -183,6 +186,14 @@ pub fn profile(name: &str) -> Profile {
                 par_pct: 0,
                 ..base
             }
+        }
+        "bulkhuge" => {
+            let mut p = profile("bulk");
+            p.name = "bulkhuge";
+            p.huge = true;
+            p.frames = (2, 4);
+            p.ops = (2, 6);
+            p
         }
         "stale" => {
             let mut w = lifecycle_weights();
@@ -422,7 +433,11 @@ impl Gen {
             .into_iter()
             .map(|k| (k, *self.rng.pick(&ALL_REG_PATHS)))
             .collect();
-        let (prealloc, keep_every) = if self.prof.bulk {
+        let mut keep_cap = 0;
+        let (prealloc, keep_every) = if self.prof.huge {
+            keep_cap = 1500;
+            (2_900, 2)
+        } else if self.prof.bulk {
             match self.rng.below(6) {
                 0 | 1 => (300, 2),
                 2 => (520, 3),
@@ -447,6 +462,7 @@ impl Gen {
             prealloc,
             keep_every,
             faults: self.prof.faults,
+            keep_cap,
         }
     }
 
@@ -691,7 +707,7 @@ impl Gen {
 
     fn gen_cat(&mut self, ex: &Exec, cat: Cat) -> Option<OpKind> {
         use Cat::*;
-        let many = ex.model.live_count() > if ex.cfg.prealloc > 0 { 220 } else { 40 };
+        let many = ex.model.live_count() > if self.prof.huge { 1600 } else if ex.cfg.prealloc > 0 { 220 } else { 40 };
         Some(match cat {
             CreateNow => {
                 if many {
@@ -725,7 +741,12 @@ impl Gen {
                 // or repeated handle far into the batch
                 if ex.model.live_count() > 66 && self.rng.chance(if self.prof.bulk { 3 } else { 1 }, if self.prof.bulk { 4 } else { 3 }) {
                     let live = ex.model.live_handles();
-                    let take = self.rng.range(65, live.len().min(200) as u64) as usize;
+                    let cap = if self.prof.huge { 1480 } else { 200 };
+                    let take = if self.prof.huge && live.len() > 1100 && self.rng.chance(2, 3) {
+                        self.rng.range(1030, live.len().min(cap) as u64) as usize
+                    } else {
+                        self.rng.range(65, live.len().min(cap) as u64) as usize
+                    };
                     let mut hs: Vec<H> = live
                         .iter()
                         .map(|&hn| ex.model.hs[hn].href)
@@ -737,6 +758,13 @@ impl Gen {
                         let bad = if self.rng.chance(1, 2) { self.dead(ex) } else { Some(hs[self.rng.usize_below(pos)]) };
                         if let Some(b) = bad {
                             hs.insert(pos, b);
+                        }
+                        // sometimes a second stale handle further on
+                        if self.rng.chance(1, 2) && hs.len() > pos + 2 {
+                            if let Some(b2) = self.dead(ex) {
+                                let pos2 = self.rng.range(pos as u64 + 1, hs.len() as u64 - 1) as usize;
+                                hs.insert(pos2, b2);
+                            }
                         }
                     }
                     return Some(OpKind::DeleteBatch(hs));
